@@ -1,4 +1,5 @@
 pub mod c15;
+pub mod c16;
 pub mod c19;
 pub mod c20;
 pub mod corridor;
@@ -29,6 +30,7 @@ pub fn registry() -> Vec<&'static dyn Property> {
         &speed_profile::C13,
         &train_props::C14,
         &c15::C15,
+        &c16::C16,
         &c19::C19,
         &c20::C20,
     ]
